@@ -11,3 +11,12 @@ check("C08", "exploration",
       "runtime monitor: independent strict unified-diff parser + exact applier (forward and reverse) as oracle over bounded-exhaustive and random text pairs; GNU patch as second applier",
       "All pairs of texts of up to 4 (quick) / 5 (thorough) lines over {a,b,empty} with and without final newline, the same short texts around 0..8 common context lines, and random long texts with many separated edits are diffed by the real code; every output is parsed strictly (header, hunk order, counts vs. bodies, start lines) and applied to old and, reversed, to new.",
       "Trusted: checks/c08/udiff.go (own parser/applier, no fuzz, no offset search); GNU patch 2.7 only as a cross-check (disagreement between the two appliers is inconclusive, not a violation).")
+
+check("C18", "exploration",
+      "runtime monitor: go/parser as reference oracle (full parse decides validity, ImportsOnly gives the import list, on the file and on the returned prefix); prefix/whole-input relations; panic and stall guards",
+      "Grammar-generated Go files (BOM, comments between any tokens, grouped/named/dot/blank imports, raw and escaped strings, ';', CRLF) plus truncations at every offset, byte mutations and random bytes are fed to the real ReadImports in both modes; each execution is compared with go/parser.",
+      "Trusted: go/parser of the Go 1.23 standard library. NUL bytes are a separate, always-reported error class (not a syntax error) and are excluded from the whole-input relation.")
+check("C19", "exploration",
+      "runtime monitor: reference evaluator written from the statement, cross-validated against go/build.Context.MatchFile / go/build/constraint on the comparable sub-domain",
+      "MatchFile: all names of 1-4 segments over 8 tokens x 4 extensions x 37 tag sets (exhaustive). ShouldBuild: generated leading comment blocks x all 256 subsets of an 8-tag vocabulary for the first contents and random subsets (with and without '*') for the rest.",
+      "Trusted: checks/c19 reference evaluator (the statement's rules); go/build of Go 1.23 agrees with it on every cross-validated case (disagreement would be reported as inconclusive). Negated malformed terms and malformed terms under an 'ignore' tag are asserted by the statement evaluator only (go/build/constraint maps them to the tag 'ignore').")
